@@ -184,6 +184,8 @@ static RunSpec derive_spec(const std::string& world, int variant, uint64_t run_s
     g.module_ops = true;
     g.table_ops = true;
     g.q120 = true;
+    g.edge_products = true;
+    g.life_ops = true;
     g.zero_sizes = true;
     g.min_calls = 6;
     g.max_calls = 30;
@@ -355,6 +357,7 @@ static void add_exec_stats(Json& st, const Exec& e) {
   add("fresh_twins", e.n_twin);
   add("model_coeffs_checked", e.n_model_checks);
   add("adjacent_buffers", e.n_adjacent);
+  add("scratch_reused_dirty", e.n_tmp_reused);
   add("fpenv_checks", e.n_fpenv_checks);
   static const char* fn[] = {"fill_zero", "fill_ff", "fill_qnan", "fill_snan", "fill_random", "fill_a5"};
   for (int i = 0; i < SIM_FILL_NKINDS; ++i) add(fn[i], e.n_prefill[i]);
